@@ -94,6 +94,13 @@ class SimTlsSocket:
 
     def getpeercert(self, binary_form=False):
         wld = world()
+        no_verify = self._ctx.verify_mode in (None, FACADE.CERT_NONE)
+        if no_verify and self.server_side:
+            # a server that does not ask for a client certificate (CERT_NONE) never gets one
+            return None if binary_form else {}
+        if no_verify and not binary_form:
+            # without verification only the raw certificate is available
+            return {}
         certfile = self._peer_ctx()
         if certfile is None:
             return None if binary_form else {}
